@@ -104,8 +104,11 @@ def frame(case, shuffle_seed=None):
   nm.update(case['names'])
   recs = []
   t0 = pd.Timestamp('2021-03-01')
+  gaps = {tuple(x) for x in case.get('gaps', [])}         # (group label, day): no row of that group on that day
   for gd in case['geos']:
     for t, v in enumerate(gd['series']):
+      if (gd['group'], t) in gaps:
+        continue
       per = 0 if t < case['n_pre'] else 1 if t < case['n_pre'] + case['n_test'] else 2
       gid = ('G%d' % gd['id']) if case['str_ids'] else gd['id']
       recs.append({nm['key_geo']: gid, nm['key_date']: t0 + pd.Timedelta(days=t), nm['key_period']: per,
@@ -245,9 +248,13 @@ def run(tier):
   for i, c in enumerate(cases):
     if i % 3 == 1:
       c['earlier_panel'] = donors[i % len(donors)]
+    if i % 5 == 3 and 'labels' in c and c.get('n_pre', 0) > 3:
+      # on one pre-period day one of the two groups has no row at all
+      c['gaps'] = [(c['labels'][r4.randrange(2)], r4.randrange(c['n_pre']))]
   res = common.pmap(_one, cases, chunksize=2)
   dist = {'with_noisy_geos': 0, 'with_outlier_dates': 0, 'fewer_than_4_geos': 0, 'custom_names': 0, 'rows_total': 0,
-          'object_analysed_another_panel_first': sum(1 for c in cases if c.get('earlier_panel') is not None)}
+          'object_analysed_another_panel_first': sum(1 for c in cases if c.get('earlier_panel') is not None),
+          'a_group_without_rows_on_one_day': sum(1 for c in cases if c.get('gaps'))}
   terms = []
   for c, (r, r2) in zip(cases, res):
     if r['outcome'].startswith('harness error'):
